@@ -162,8 +162,10 @@ def check_c04(ck, ctx, b, tier):
     ideal_consts = [Fr(0), -cbrt_b, -cbrt_b]
     round_g = U32 * Fr(17, 10)               # rounding of c_i + a_i, |G| <= 1.7
     tot = [Fr(1, 2) * (eps[0] + eps[1]) + round_g + U32 * 2, Fr(1, 2) * (eps[0] + eps[1]) + round_g + U32 * 2, eps[2] + round_g]
+    bounds = {}
     for k, nm in enumerate('XYB'):
         bound = tot[k] + abs(consts[k] - ideal_consts[k]) + F.out[k].err
+        bounds[nm] = bound
         ck.ob(f"{base}/cube/{nm}", 'PROVED' if bound <= Fr(2, 10 ** 6) else 'UNDECIDED',
               f"|{nm} - ideal| <= {float(bound):.3g} on [0,4]^3 (given A-cbrt)")
         ck.sample(dict(component=nm, bound=float(bound), const=float(consts[k]), ideal_const=float(ideal_consts[k])))
@@ -187,12 +189,14 @@ def check_c04(ck, ctx, b, tier):
         Dn = D0 + U32 * (P1 + P2 + 1)
         if not (Fr(-1, 1000) + Dn < 0):
             ck.ob(f"{base}/stratum/clamp{i}", 'UNDECIDED', 'mix <= -1e-3 not shown to be clamped')
-    zero = fold(X.node('app', (list(F.apps.values())[0]['node'].args[0], X.const(X.F32, 0.0)), X.F32), None, ctx.crate)
+    an = list(F.apps.values())[0]['node']
+    zero = fold(X.node('app', (an.args[0], X.const(X.F32, 0.0)), X.F32) if an.op == 'app' else X.fcall(an.op[5:], [X.const(X.F32, 0.0)]), None, ctx.crate)
     gz = None
     if zero.is_const:
         gz = Fr(zero.val)
     for k, nm in enumerate('XYB'):
         bound = (worst if nm == 'B' else worst) + round_g + abs(consts[k] - ideal_consts[k]) + F.out[k].err + U32 * 2
+        bounds[nm] = max(bounds[nm], bound)
         ck.ob(f"{base}/stratum/{nm}", 'PROVED' if bound <= Fr(2, 10 ** 6) else 'UNDECIDED',
               f"|{nm} - ideal| <= {float(bound):.3g} for mixes >= 0.05 with negative components (given A-cbrt)")
     if gz is None:
@@ -200,6 +204,35 @@ def check_c04(ck, ctx, b, tier):
     else:
         ck.ob(f"{base}/stratum/clamped", 'PROVED' if abs(gz) + U32 <= Fr(2, 10 ** 6) else 'REFUTED',
               f"clamped mixes give cbrtf(0.0) = {float(gz):.3g} (ideal 0) before the bias term")
+    return bounds
+
+def forward_agreement(ck, ctx1, ctx3, rel1, rel3):
+    """|LinearRgb->Xyb in build 1 - in build 3| for every pixel of [-1,4]^3, the two builds differing only in the cube root helper.
+    Both kernels are  out_k = sum_i w_ki (cbrt_b(clamp0(mix_i))) + const_k  with the SAME mixes (identical expressions,
+    hence identical binary32 values) and the same weights; the two cube roots of one mix value differ by at most
+    (rel1 + rel3) * cbrt(mix); the affine part adds each build's own rounding."""
+    from .c14 import canon
+    F1 = Forward(ctx1, lo=Fr(-1), hi=Fr(4)); F3 = Forward(ctx3, lo=Fr(-1), hi=Fr(4))
+    o1, o3 = F1.order(), F3.order()
+    if o1 is None or o3 is None:
+        ck.ob('C20/agreement/xyb-forward', 'UNDECIDED', 'forward XYB kernel structure not recognised in both builds'); return
+    for i, (a1, a3) in enumerate(zip(o1, o3)):
+        m1, m3 = F1.mix[a1], F3.mix[a3]
+        if canon(m1['node']) != canon(m3['node']) or m1['clamped'] != m3['clamped']:
+            ck.ob('C20/agreement/xyb-forward', 'UNDECIDED', f"opsin mix {i} is not the same expression in both builds"); return
+    for k, nm in enumerate('XYB'):
+        tot = Fr(0)
+        for a1, a3 in zip(o1, o3):
+            w1, w3 = F1.out[k].p.coef(a1), F3.out[k].p.coef(a3)
+            if w1 != w3:
+                ck.ob(f"C20/agreement/xyb-forward/{nm}", 'UNDECIDED', 'weights of the cube roots differ between the builds'); break
+            cmax = max(abs(F1.an.atom_info[a1]['hi']), abs(F3.an.atom_info[a3]['hi']))
+            tot += abs(w1) * (Fr(rel1) + Fr(rel3)) * cmax
+        else:
+            dconst = abs(F1.out[k].p.constant() - F3.out[k].p.constant())
+            tot += dconst + F1.out[k].err + F3.out[k].err
+            ck.ob(f"C20/agreement/xyb-forward/{nm}", 'PROVED' if tot <= Fr(2, 10 ** 6) else 'UNDECIDED',
+                  f"|fastmath build - libm build| <= {float(tot):.3g} {'<=' if tot <= Fr(2, 10 ** 6) else '>'} 2e-6 for the {nm} of LinearRgb->Xyb on [-1,4]^3 (same mixes and weights; the two cube roots of one value differ by <= {float(Fr(rel1) + Fr(rel3)):.3g} relative; constants differ by {float(dconst):.3g})")
 
 def check_c16_xyb(ck, ctx, b):
     require_cbrt(b)
